@@ -226,6 +226,167 @@ def reduced_pairs(d, tier):
     return list(schemas.ordered_pairs(red))
 
 
+# ---- sessions: every order of entry-point calls on ONE validator object -------
+SES_STORE = {
+    "r.json": {"d": {"type": "integer"}, "definitions": {"a": {"type": "boolean"}}},
+    "http://h.invalid/r.json": {"d": {"type": "null"}, "definitions": {"a": {"type": "array"}}},
+    "http://h.invalid/sub/r.json": {"d": {"type": "string"}, "definitions": {"a": {"type": "string"}}},
+}
+SES_INSTANCES = [{}, {"x": 1}, {"r": 1}, {"r": "s"}, {"x": 1, "r": 1}, {"x": "s", "r": "s"}, [1, 1], ["s", "s"], [1, "s"],
+                 {"x": {"y": 1}}]
+SES_OPS = ("is_valid", "take1", "validate", "iter_errors")
+SES_NUM = [2, 2.0, 2.5, True, "2", None, [2.0], [2.5], {"a": 2.0}, {"a": 2.5}, 0, -0.0]
+
+
+def session_schemas(d):
+    idk = "id" if d in (3, 4) else "$id"
+    sub = {idk: "http://h.invalid/sub/", "type": "string"}
+    rel = {"$ref": "r.json#/d"}
+    out = []
+    for root in (None, "http://h.invalid/root.json"):
+        fam = [
+            {"properties": {"x": dict(sub), "r": dict(rel)}},
+            {"properties": {"x": {idk: "http://h.invalid/sub/", "properties": {"q": {}}, "type": "string"}, "r": dict(rel)}},
+            {"items": [dict(sub), dict(rel)]},
+            {"definitions": {"a": {"type": "integer"}},
+             "properties": {"x": {"$ref": "http://h.invalid/sub/r.json#/d"}, "r": {"$ref": "#/definitions/a"}}},
+            {"definitions": {"a": {"type": "integer"}},
+             "items": [{"$ref": "http://h.invalid/sub/r.json#/d"}, {"$ref": "#/definitions/a"}]},
+            {"properties": {"x": {idk: "sub/", "type": "string", "properties": {"y": dict(rel)}}, "r": dict(rel)}},
+        ]
+        # an id that cannot be joined to the base in effect: the call that meets it ends in RefResolutionError
+        # and every other call on the same object must be unaffected
+        fam += [{"properties": {"x": {idk: "http://[", "type": "string"}, "r": dict(rel)}},
+                {"properties": {"x": {idk: "http://h.invalid/sub/", "properties": {"y": {idk: "http://["}}},
+                                "r": dict(rel)}}]
+        if d >= 4:
+            fam += [{"not": dict(sub, properties={"x": {"type": "string"}}), "properties": {"r": dict(rel)}},
+                    {"anyOf": [dict(sub), {"properties": {"r": dict(rel)}, "type": "object"}]},
+                    {"properties": {"x": {"not": {"$ref": "http://h.invalid/sub/r.json#/d"}},
+                                    "r": {"$ref": "#/definitions/a"}}, "definitions": {"a": {"type": "integer"}}}]
+        else:
+            fam += [{"disallow": [dict(sub, properties={"x": {"type": "string"}})], "properties": {"r": dict(rel)}},
+                    {"extends": [dict(sub)], "properties": {"r": dict(rel)}}]
+        if d >= 6:
+            fam += [{"contains": dict(sub), "items": [True, dict(rel)]}]
+        if d == 7:
+            fam += [{"if": {"properties": {"x": dict(sub)}}, "then": {"properties": {"r": dict(rel)}},
+                     "else": {"properties": {"r": dict(rel)}}}]
+        for S in fam:
+            if root:
+                S = dict(S)
+                S[idk] = root
+            out.append(S)
+    return out
+
+
+def ses_validator(d, S, with_store):
+    cls = _e1.CLS[d]
+    if not with_store:
+        return cls(S)
+    r = jsonschema.RefResolver.from_schema(S, id_of=cls.ID_OF, store={k: json.loads(json.dumps(v)) for k, v in SES_STORE.items()})
+    return cls(S, resolver=r)
+
+
+def ses_observe(v, op, x):
+    if op == "is_valid":
+        return call(lambda: v.is_valid(x))
+    if op == "iter_errors":
+        return call(lambda: [ident(e) for e in v.iter_errors(x)])
+    if op == "validate":
+        return call(lambda: v.validate(x))
+
+    def take1():
+        it = v.iter_errors(x)
+        e = next(it, None)
+        del it
+        return [] if e is None else [ident(e)]
+    return call(take1)
+
+
+def ses_problem(op, got, fresh):
+    """fresh = call-result of a complete iteration on a new validator object."""
+    if fresh[0] != "ret":
+        return None     # the complete iteration does not finish normally: nothing to compare an early stop with
+    errs = fresh[1]
+    if op == "is_valid":
+        want = ("ret", not errs)
+    elif op == "iter_errors":
+        want = ("ret", errs)
+    elif op == "take1":
+        want = ("ret", errs[:1])
+    else:
+        want = ("ValidationError", errs[0]) if errs else ("ret", None)
+    if got != want:
+        return "%s on a used validator gave %.200r, a new validator object gives %.200r" % (op, got, want)
+    return None
+
+
+def run_session(d, S, hist, with_store, fresh_cache):
+    v = ses_validator(d, S, with_store)
+    for i, (op, x) in enumerate(hist):
+        key = json.dumps(x)
+        if key not in fresh_cache:
+            vv = ses_validator(d, S, with_store)
+            fresh_cache[key] = call(lambda: [ident(e) for e in vv.iter_errors(x)])
+        got = ses_observe(v, op, x)
+        p = ses_problem(op, got, fresh_cache[key])
+        if p:
+            return i, p
+    return None
+
+
+def session_units(d, tier):
+    """(family, schema, instances, with_store)"""
+    out = []
+    for S in session_schemas(d):
+        if _e1.accepted(d, S):
+            out.append(("scoped", S, SES_INSTANCES, True))
+    sub = [None, 0, 1.5, 2.0, "a", [0, "a"], ["a", "a"], {"a": 0}, {"a": "a", "b": 0}, {"b": 0, "ab": 0}, [[0], [0]], True]
+    for S in _e1.get_list("singles", d, tier):
+        out.append(("single", S, sub, False))
+    for S in ({"type": "integer"}, {"type": ["integer", "string"]}, {"items": {"type": "integer"}},
+              {"properties": {"a": {"type": "integer"}}}, {"type": "number"}, {"enum": [2, "2"]},
+              {"multipleOf" if d >= 4 else "divisibleBy": 1}, {"uniqueItems": True}, {"type": ["number", "null"]}):
+        if _e1.accepted(d, S):
+            out.append(("numeric", S, SES_NUM, False))
+    return out
+
+
+def run_sessions(unit, ctx):
+    import itertools
+    d, _, shard, n = unit
+    allu = session_units(d, ctx.tier)
+    ev = nt = 0
+    viol, samples, outcomes = [], [], {}
+    for ui in range(shard, len(allu), n):
+        fam, S, insts, with_store = allu[ui]
+        fresh_cache = {}
+        if fam == "single":
+            hists = [((o1, x1), ("iter_errors", x2)) for o1 in ("is_valid", "take1", "validate") for x1 in insts for x2 in insts]
+        else:
+            ops = [(o, x) for o in SES_OPS for x in insts]
+            L = 3 if (ctx.thorough and fam == "scoped") else 2
+            hists = itertools.product(ops, repeat=L)
+        for hist in hists:
+            ev += 1
+            r = run_session(d, S, hist, with_store, fresh_cache)
+            if r is None:
+                outcomes["session-agrees"] = outcomes.get("session-agrees", 0) + 1
+            else:
+                nt += 1
+                outcomes["SESSION-DISAGREES"] = outcomes.get("SESSION-DISAGREES", 0) + 1
+                viol.append({"signature": "C04|session|%s|%s" % (fam, r[1].split(" ")[0]), "size": len(str(S)) + 50 * (r[0] + 1),
+                             "case": {"draft": d, "schema": S, "config": {"kind": "session", "with_store": with_store},
+                                      "history": [[op, x] for op, x in hist[:r[0] + 1]]},
+                             "detail": {"problem": r[1], "failing_call": r[0]}})
+        nt += sum(1 for k, f in fresh_cache.items() if f[0] == "ret" and f[1])
+        if not samples and fam == "scoped":
+            samples.append({"draft": d, "schema": S, "session": [["is_valid", insts[1]], ["iter_errors", insts[2]]]})
+    return {"evaluations": ev, "nontrivial": min(nt, ev), "violations": viol, "samples": samples, "outcomes": outcomes,
+            "counters": {"sessions": ev}}
+
+
 def plan(ctx):
     sizes = {}
     units = []
@@ -242,6 +403,9 @@ def plan(ctx):
             _e1._cache[("rpairs", d, ctx.tier)] = rp
             sizes["reduced_pairs_d%d" % d] = len(rp)
             units += [(d, "rpairs", i, 8) for i in range(8)]
+    for d in _e1.DRAFTS:
+        sizes["session_schemas_d%d" % d] = len(session_units(d, ctx.tier))
+        units += [(d, "sessions", i, 12) for i in range(12)]
     n = 4 if ctx.tier == "quick" else 8
     for d in _e1.DRAFTS:
         sizes["invalid_schemas_d%d" % d] = len(invalid_candidates(d, ctx.tier))
@@ -253,7 +417,12 @@ def plan(ctx):
                  "per keyword; thorough: all ordered pairs of the full single alphabet) x a 10-instance universe, "
                  "each with FormatChecker() too when the schema uses `format`; invalid schemas: every candidate of "
                  "C11's table (4-12 positions) that the draft's check_schema rejects, with a trip-wire instance; "
-                 "all relations of the property are evaluated on each; distinct by construction; non-trivial = the "
+                 "all relations of the property are evaluated on each; SESSIONS: on ONE validator object every sequence "
+                 "of 2 (thorough: 3) calls (is_valid / first error then drop / validate / complete iteration) x "
+                 "instance, for schemas with base-changing ids, relative and cross-document references (documents in "
+                 "the store), for integer/number schemas on 2 / 2.0 / 2.5 / true, and (state-leaving call, then a "
+                 "complete iteration) for every single-keyword schema over 12 instances; every call must give what "
+                 "a new validator object gives; distinct by construction; non-trivial = the "
                  "instance is invalid (>= 1 error) or the schema is invalid"),
         "bounds": dict(sizes, tier=ctx.tier),
         "assumptions": ["error identity = (keyword, message, path, schema path, keyword value, instance, context "
@@ -275,6 +444,8 @@ def run_unit(unit, ctx):
                      "case": {"draft": d, "schema": S, "instance": x, "config": cfg},
                      "detail": {"problem": problem}})
 
+    if kind == "sessions":
+        return run_sessions(unit, ctx)
     if kind == "invalid":
         cands = invalid_candidates(d, ctx.tier)
         for i in range(unit[2], len(cands), unit[3]):
@@ -331,6 +502,9 @@ def run_unit(unit, ctx):
 
 def replay(case, ctx):
     d, S, cfg = case["draft"], case["schema"], case["config"]
+    if cfg.get("kind") == "session":
+        r = run_session(d, S, [tuple(h) for h in case["history"]], cfg["with_store"], {})
+        return {"reproduced": r is not None, "problem": r}
     if cfg.get("kind") == "invalid":
         p = check_invalid_schema(d, S)
     else:
